@@ -81,7 +81,7 @@ LeadFrom(w, cs, i) ==
   IF i > Len(cs) THEN w
   ELSE LET c  == cs[i]
            w1 == IF i = 1 THEN (IF Len(c) > 0 THEN [w EXCEPT !.out = Append(@, 32)] ELSE w)
-                 ELSE [w EXCEPT !.out = Append(@, 10) \o IndentBytes(w)]
+                 ELSE [w EXCEPT !.out = Append(@, 10) \o (IF Len(c) > 0 THEN IndentBytes(w) ELSE <<>>)]   \* blank lines are not indented
            w2 == [w1 EXCEPT !.out = @ \o (IF Len(c) > 0 THEN <<47, 47>> ELSE <<>>) \o c]
        IN LeadFrom(w2, cs, i + 1)
 WLead(w, cs) ==
@@ -98,6 +98,7 @@ Apply(w, o) ==
     [] o.op = "rune" -> WRune(w, o.r)
     [] o.op = "semi" -> WSemi(w)
     [] o.op = "sep" -> WSep(w, o.r)
+    [] o.op = "forget" -> [w EXCEPT !.omit = FALSE]        \* forgetOmittedSemi
     [] o.op = "space" -> WSpace(w)
     [] o.op = "nl" -> WNewline(w)
     [] o.op = "indent" -> WIndent(w)
@@ -109,7 +110,7 @@ Apply(w, o) ==
 RECURSIVE Run(_, _, _)
 Run(w, ops, i) == IF i > Len(ops) THEN w ELSE Run(Apply(w, ops[i]), ops, i + 1)
 
-(* compiler.cleanEmptyLines: TrimSpace on the whole text, TrimRight(" ") on every line *)
+(* compiler.cleanEmptyLines *)
 IsSpaceByte(b) == b \in {32, 9, 10, 11, 12, 13}
 RECURSIVE TrimLeft(_), TrimRightWS(_), WTrimRightSp(_), SplitLF(_, _), JoinLF(_)
 TrimLeft(s) == IF s # <<>> /\ IsSpaceByte(Head(s)) THEN TrimLeft(Tail(s)) ELSE s
@@ -119,9 +120,9 @@ SplitLF(s, cur) ==
   IF s = <<>> THEN <<cur>>
   ELSE IF Head(s) = 10 THEN <<cur>> \o SplitLF(Tail(s), <<>>) ELSE SplitLF(Tail(s), Append(cur, Head(s)))
 JoinLF(ls) == IF Len(ls) = 0 THEN <<>> ELSE IF Len(ls) = 1 THEN ls[1] ELSE ls[1] \o <<10>> \o JoinLF(Tail(ls))
-CleanEmptyLines(code) ==
-  LET ls == SplitLF(TrimRightWS(TrimLeft(code)), <<>>)
-  IN JoinLF([j \in 1..Len(ls) |-> WTrimRightSp(ls[j])])
+\* strings.TrimSpace on the whole text; lines are not trimmed one by one (they may belong to a
+\* multi-line literal)
+CleanEmptyLines(code) == TrimRightWS(TrimLeft(code))
 
 \* Compiler.Compile: run the printer's ops on a fresh writer
 Finish(w) == IF w.cfg.pretty THEN CleanEmptyLines(w.out) ELSE w.out
